@@ -3,6 +3,7 @@ C06 — Digits are computed lazily, in order, once per Number, with bounded read
 -/
 import Sqroot.Proofs.Monitor
 import Sqroot.Proofs.MonitorMemo
+import Sqroot.Proofs.MemoDemand
 import Sqroot.Model.Expect
 import Sqroot.Model.Managers
 namespace Sqroot.Props.C06
@@ -52,6 +53,30 @@ theorem sequential_client_matches_memo_model (c : MonCfg) (hc : 0 < c.chunk) (sr
     s.consulted = (memoRun ⟨c.chunk, c.maxChunks⟩ src idxs).consulted ∧
     s.len = src.minLen (memoRun ⟨c.chunk, c.maxChunks⟩ src idxs).maxLength :=
   single_client_final c hc src hsrc idxs hcap ls s hrun hstuck
+
+/-- the property's formula on the sequential model, for every read path and through every view:
+`consulted ≤ demand`, and each operation raises the demand to at most (highest position it
+DELIVERED + 1 + one block), or — when it delivers nothing — to (the position it asked about after
+clamping to the view's end + 1 + one block). `DemandLe c m r` reads "demand ≤ r + 1 + chunk". -/
+theorem consulted_at_most_demand (m : Memo) : m.consulted ≤ m.maxLength := consulted_le_demand m
+
+theorem at_read_ahead (c : MemoCfg) (hc : 0 < c.chunk) (m : Memo) (sp : VSpec) (p : Int) (r : Int) (h : DemandLe c m r) :
+    DemandLe c (specAt c m sp p).1 (max r (match sp with | .limited l => min p l | _ => p)) :=
+  at_demand c hc m sp p r h
+
+theorem traversal_read_ahead (c : MemoCfg) (hc : 0 < c.chunk) (m : Memo) (sp : VSpec) (index : Int) (take : Nat)
+    (hidx : 0 ≤ index) (r : Int) (h : DemandLe c m r) (m' : Memo) (xs : List (Nat × Nat))
+    (hs : specScan c m sp index take = .ok (m', xs)) :
+    DemandLe c m'
+      (max r (match xs.getLast? with
+        | some (q, _) => (q : Int) + 1
+        | none => (match sp with | .limited l => min index l | _ => index))) ∧
+    (take = 0 → m' = m) :=
+  scan_demand c hc m sp index take hidx r h m' xs hs
+
+theorem live_iterator_read_ahead (c : MemoCfg) (hc : 0 < c.chunk) (m : Memo) (it : PullIt) (r : Int) (h : DemandLe c m r) :
+    DemandLe c (m.pull3 c it).1 (max r ((it.index : Int) + 1)) :=
+  pull3_demand c hc m it r h
 
 /-- tie 1: the memoizer functions are the ones the transition system was written from, and the
 source is consulted only from `run` (which only `newMemoizeSpec` starts, once) -/
